@@ -1054,7 +1054,7 @@ func provenance(p *Prog, v ssa.Value, depth int, seen map[ssa.Value]bool) []prov
 		}
 		// fs.WalkDir callback parameters: relative path inside the walked root
 		if fn.Parent() != nil && x.Type().String() == "string" && idx == 0 {
-			if sig := fn.Signature; sig.Params().Len() == 3 {
+			if sig := fn.Signature; sig.Params().Len() == 3 && isNamed(sig.Params().At(1).Type(), "io/fs", "DirEntry") && isErrorType(sig.Params().At(2).Type()) {
 				return []provLeaf{{"walkrel", x.Name()}}
 			}
 		}
